@@ -6,6 +6,7 @@
 package crash
 
 import (
+	"crypto/sha256"
 	"fmt"
 	"os"
 	"path/filepath"
@@ -91,6 +92,69 @@ func analyse(pcs []uintptr) (site, caller string, stack []string) {
 		caller = site
 	}
 	return
+}
+
+// Running is a guarded call in flight.
+type Running struct {
+	done  chan Result
+	start time.Time
+}
+
+// Start runs f in its own goroutine under recover().
+func Start(f func() string) *Running {
+	r := &Running{done: make(chan Result, 1), start: time.Now()}
+	go func() {
+		var res Result
+		defer func() {
+			if p := recover(); p != nil {
+				pcs := make([]uintptr, 64)
+				n := runtime.Callers(2, pcs)
+				res.Panicked = true
+				res.Value = truncate(fmt.Sprint(p), 300)
+				res.Site, res.Caller, res.Stack = analyse(pcs[:n])
+			}
+			res.Elapsed = time.Since(r.start)
+			r.done <- res
+		}()
+		res.Outcome = f()
+	}()
+	return r
+}
+
+// Wait waits until the call has been running for `total` (measured from its start). ok=false: still running.
+func (r *Running) Wait(total time.Duration) (Result, bool) {
+	left := total - time.Since(r.start)
+	if left < 0 {
+		left = 0
+	}
+	timer := time.NewTimer(left)
+	defer timer.Stop()
+	select {
+	case res := <-r.done:
+		return res, true
+	case <-timer.C:
+		return Result{TimedOut: true, Elapsed: time.Since(r.start)}, false
+	}
+}
+
+// Calibrate measures how long a fixed piece of CPU work (about 10 ms on an idle core) takes right now:
+// the yardstick that keeps a loaded machine from being mistaken for a non-terminating callee.
+func Calibrate() time.Duration {
+	best := time.Duration(1<<62 - 1)
+	buf := make([]byte, 1<<20)
+	for k := 0; k < 3; k++ {
+		t0 := time.Now()
+		var acc [32]byte
+		for i := 0; i < 4; i++ {
+			buf[0] = byte(i)
+			acc = sha256.Sum256(buf)
+		}
+		_ = acc
+		if d := time.Since(t0); d < best {
+			best = d
+		}
+	}
+	return best
 }
 
 // Call runs f under recover() and the deadline. When the deadline passes the goroutine is abandoned
